@@ -102,7 +102,9 @@ def make_copyright_line(
         )
 
     for pattern in _COPYRIGHT_PATTERNS:
-        match = pattern.search(statement)
+        # A statement is a notice already when it begins like one; 'Copyright'
+        # or the copyright sign may well occur inside the name of a holder.
+        match = pattern.match(statement)
         if match is not None:
             return statement
     if year is not None:
